@@ -768,6 +768,9 @@ func c01run(cfg *c01cfg, o *c01obs, ctx context.Context, cancel context.CancelFu
 			its[i] = c01source(cfg, parts[i], block)
 		}
 		single(cfg, o, fun.MergeIterators(its...), ctx, cancel)
+	case "merge0":
+		// the boundary number of inputs: a merge of no iterators at all (a variadic call with an empty slice)
+		single(cfg, o, fun.MergeIterators[int](), ctx, cancel)
 	case "genpar", "itgen":
 		var mu sync.Mutex
 		idx := 0
